@@ -131,6 +131,38 @@ func (g *skGen) stmts(budget int, cx skCtx, emit func(s *model.N, used int)) {
 			emit(hdr(model.Block(st...)), 1+u)
 		})
 	}
+	// for without an increment clause (the body bumps the counter first), and the bare (;;) form
+	kf := fmt.Sprintf("k%d", cx.depth)
+	lk := in
+	lk.inLoop, lk.counter = true, kf
+	bumpK := func() *model.N { return model.ExprS(model.Asg(kf, model.Bin("+", model.Id(kf), model.Num(1)))) }
+	g.seqs(budget-1, lk, func(st []*model.N, u int) {
+		body := append([]*model.N{bumpK()}, st...)
+		emit(model.For(model.Var(kf, model.Num(0)), model.Bin("<", model.Id(kf), model.Num(2)), nil, model.Block(body...)), 1+u)
+		if hasOwnBreak(st) {
+			emit(model.Block(model.Var(kf, model.Num(0)), model.For(nil, nil, nil, model.Block(cloneList(body)...))), 1+u)
+		}
+		emit(model.Block(model.Var(kf, model.Num(0)), model.For(nil, model.Bin("<", model.Id(kf), model.Num(2)), nil, model.Block(cloneList(body)...))), 1+u)
+	})
+	// while with a bare (unbraced) body; the condition itself advances the counter
+	tw := fmt.Sprintf("c%d", cx.depth)
+	lt := in
+	lt.inLoop, lt.counter = true, tw
+	g.stmts(budget-1, lt, func(b *model.N, u int) {
+		if b.K == "block" {
+			return
+		}
+		cond := model.Bin("<", model.Grp(model.Asg(tw, model.Bin("+", model.Id(tw), model.Num(1)))), model.Num(3))
+		emit(model.Block(model.Var(tw, model.Num(0)), model.While(cond, b)), 1+u)
+	})
+}
+
+func cloneList(l []*model.N) []*model.N {
+	out := make([]*model.N, len(l))
+	for i, n := range l {
+		out[i] = n.Clone()
+	}
+	return out
 }
 
 // hasOwnBreak: some break statement belongs to the loop whose body this is.
